@@ -2,7 +2,7 @@
    Statements only, one group per allocator family; the models are tied to the code by replay of
    implementation logs (see the evidence file for what was replayed on this run). *)
 From Coq Require Import ZArith List Bool.
-From FM Require Import FixedStack SmallCarve PoolSpec SlotProofs ListLib PoolSpecProofs Stack StackProofs Iteration IterationProofs InvalidRelease SmallList SmallListProofs Stack Arena UnorderedList UnorderedRefine PoolExec PoolExecProofs SmallRefine SmallPoolExec SmallPoolExecProofs OrderedList OrderedRefine OrderedPoolExec OrderedPoolExecProofs.
+From FM Require Import FixedStack SmallCarve PoolSpec SlotProofs ListLib PoolSpecProofs Stack StackProofs Iteration IterationProofs InvalidRelease SmallList SmallListProofs Stack Arena UnorderedList UnorderedRefine PoolExec PoolExecProofs SmallRefine SmallPoolExec SmallPoolExecProofs OrderedList OrderedRefine OrderedPoolExec OrderedPoolExecProofs CollExec CollExecProofs CollInst CollSizes CollInstProofs.
 Import ListNotations.
 Local Open Scope Z_scope.
 
@@ -155,6 +155,91 @@ Theorem C01_ordered_pool_exec_constructor_related : forall k pb0 pe0 ns bs answe
   op_construct k pb0 pe0 ns bs answer = (s, ok, evs) -> exists sp, acc_evs (mk_ast [ul ns [] 0]) evs = Some sp /\ OPR s sp.
 Proof. exact op_construct_refines. Qed.
 Print Assumptions C01_ordered_pool_exec_constructor_related.
+
+(* memory_pool_collection (CollExec.v: arena + the fixed stack carving the current block + the array of free lists; reserve_memory,
+   try_reserve_memory, insert_rest and the three growth stages of allocate_array), over the intrusive list (node_pool) and over
+   the address-ordered list (array_pool; node_pool with the double-free check), identity and log2 buckets: every operation the
+   model describes is accepted by the Spec with the model's events and result, hence every history; the constructor's state is
+   related to the Spec's initial state after its first block and the reservation of the list array *)
+Theorem C01_collection_exec_step_refines_spec : forall log2 s sp o s' r evs, UCPR s sp -> ucoll_answer_ok log2 s sp o ->
+  uc_step log2 s o = Some (s', r, evs) -> exists sp', acc_op sp (cc_spec_op (coll_bkt log2) o) evs r = Some sp' /\ UCPR s' sp'.
+Proof. exact ucoll_step_refines. Qed.
+Print Assumptions C01_collection_exec_step_refines_spec.
+
+Theorem C01_collection_exec_refines_spec : forall log2 os s sp s' tr, UCPR s sp -> ucoll_answers_ok log2 s sp os ->
+  uc_run log2 s os = Some (s', tr) -> exists sp', PoolSpecProofs.run sp tr = Some sp' /\ UCPR s' sp'.
+Proof. exact ucoll_refines_spec. Qed.
+Print Assumptions C01_collection_exec_refines_spec.
+
+Theorem C01_collection_exec_constructor_related : forall log2 k fence max bs answer s ok evs,
+  sizes_okb (coll_sizes log2 max) = true -> 0 <= fence ->
+  (forall addr, answer = Some addr -> CWB (mk_ast (coll_spec_lists log2 max)) addr bs) ->
+  uc_construct log2 k fence max bs answer = Some (s, ok, evs) ->
+  exists sp, acc_evs (mk_ast (coll_spec_lists log2 max)) evs = Some sp /\ (ok = true -> UCPR s sp).
+Proof. exact uc_construct_refines. Qed.
+Print Assumptions C01_collection_exec_constructor_related.
+
+Theorem C01_ordered_collection_exec_step_refines_spec : forall log2 s sp o s' r evs, OCPR s sp -> ocoll_answer_ok log2 s sp o ->
+  oc_step log2 s o = Some (s', r, evs) -> exists sp', acc_op sp (cc_spec_op (coll_bkt log2) o) evs r = Some sp' /\ OCPR s' sp'.
+Proof. exact ocoll_step_refines. Qed.
+Print Assumptions C01_ordered_collection_exec_step_refines_spec.
+
+Theorem C01_ordered_collection_exec_refines_spec : forall log2 os s sp s' tr, OCPR s sp -> ocoll_answers_ok log2 s sp os ->
+  oc_run log2 s os = Some (s', tr) -> exists sp', PoolSpecProofs.run sp tr = Some sp' /\ OCPR s' sp'.
+Proof. exact ocoll_refines_spec. Qed.
+Print Assumptions C01_ordered_collection_exec_refines_spec.
+
+Theorem C01_ordered_collection_exec_constructor_related : forall log2 k fence max bs answer s ok evs,
+  sizes_okb (coll_sizes log2 max) = true -> 0 <= fence ->
+  (forall addr, answer = Some addr -> CWB (mk_ast (coll_spec_lists log2 max)) addr bs) ->
+  oc_construct log2 k fence max bs answer = Some (s, ok, evs) ->
+  exists sp, acc_evs (mk_ast (coll_spec_lists log2 max)) evs = Some sp /\ (ok = true -> OCPR s sp).
+Proof. exact oc_construct_refines. Qed.
+Print Assumptions C01_ordered_collection_exec_constructor_related.
+
+(* the table of list node sizes meets the constructor theorems' premise for every max_node_size up to 1024, both bucket policies *)
+Theorem C01_collection_size_table_ok : forall log2 max, 1 <= max <= 1024 -> sizes_okb (coll_sizes log2 max) = true.
+Proof. exact coll_sizes_ok_upto_1024. Qed.
+Print Assumptions C01_collection_size_table_ok.
+
+
+(* the same for memory_pool_collection<small_node_pool> over the chunked list (no arrays) *)
+Theorem C01_small_collection_exec_step_refines_spec : forall log2 s sp o s' r evs, SCPR s sp -> scoll_answer_ok log2 s sp o ->
+  sc_step log2 s o = Some (s', r, evs) -> exists sp', acc_op sp (cc_spec_op (coll_bkt_me 1%N log2) o) evs r = Some sp' /\ SCPR s' sp'.
+Proof. exact scoll_step_refines. Qed.
+Print Assumptions C01_small_collection_exec_step_refines_spec.
+
+Theorem C01_small_collection_exec_refines_spec : forall log2 os s sp s' tr, SCPR s sp -> scoll_answers_ok log2 s sp os ->
+  sc_run log2 s os = Some (s', tr) -> exists sp', PoolSpecProofs.run sp tr = Some sp' /\ SCPR s' sp'.
+Proof. exact scoll_refines_spec. Qed.
+Print Assumptions C01_small_collection_exec_refines_spec.
+
+Theorem C01_small_collection_exec_constructor_related : forall log2 k fence max bs answer s ok evs,
+  ssizes_okb (coll_sizes_me 1%N log2 max) = true -> 0 <= fence ->
+  (forall addr, answer = Some addr -> CWB (mk_ast (scoll_spec_lists log2 max)) addr bs) ->
+  sc_construct log2 k fence max bs answer = Some (s, ok, evs) ->
+  exists sp, acc_evs (mk_ast (scoll_spec_lists log2 max)) evs = Some sp /\ (ok = true -> SCPR s sp).
+Proof. exact sc_construct_refines. Qed.
+Print Assumptions C01_small_collection_exec_constructor_related.
+
+Theorem C01_small_collection_size_table_ok : forall log2 max, 1 <= max <= 1024 -> ssizes_okb (coll_sizes_me 1%N log2 max) = true.
+Proof. exact scoll_sizes_ok_upto_1024. Qed.
+Print Assumptions C01_small_collection_size_table_ok.
+
+(* a history of the real allocator (configuration base, identity buckets, max 64, block 4096 at 65600) computed by the model:
+   constructor, seven requests -- addresses, ranges and the remaining capacity are those the implementation logged *)
+Example C01_collection_exec_nonvacuous :
+  match uc_construct false AGrow 0 64 4096 (Some 65600) with
+  | Some (s, ok, evs) =>
+      ok = true /\ evs = [EUp 65600 4096; EResv 65616 1368] /\
+      match uc_run false s [CAllocNode 8 None; CAllocNode 16 None; CAllocNode 64 None; CAllocNode 9 None; CAllocArray 16 48 None None; CTryAllocNode 24; CAllocNode 8 None] with
+      | Some (s', tr) => map (fun x => snd x) tr = [ObsOk 66992; ObsOk 67072; ObsOk 67152; ObsOk 67232; ObsOk 67088; ObsOk 67312; ObsOk 67000] /\
+                         cc_capacity_left _ s' = 2313 /\ match acc_evs (mk_ast (coll_spec_lists false 64)) evs with Some sp0 => PoolSpecProofs.run sp0 tr <> None | None => False end
+      | None => False
+      end
+  | None => False
+  end.
+Proof. vm_compute. repeat split; discriminate. Qed.
 
 Example C01_pool_exec_nonvacuous :
   match up_run (up_init AGrow 16 176) [PAllocNode (Some 65536); PAllocNode None; PTryAllocNode; PDeallocNode 65552; PAllocNode None; PAllocArray 40 None; PDeallocArray 65600 40; PTryAllocArray 4000] with
